@@ -397,7 +397,7 @@ pub fn run(ctx: &mut Ctx) {
         run::end_case();
     });
     // the file handed over for a stream already has that stream's descriptor number in the parent
-    let nclosed = ctx.n(240, 1500);
+    let nclosed = ctx.n(240, 6000);
     ctx.family("parent-fd-closed", nclosed, |ctx, rng, i| {
         let s = (i % 3) as usize;
         let mut kinds = [rng.below(4) as usize, rng.below(5) as usize, rng.below(5) as usize];
@@ -417,7 +417,7 @@ pub fn run(ctx: &mut Ctx) {
         run::end_case();
     });
     // spawns from short-lived threads: the thread exits (TLS destructors run), then the parent's streams are re-checked
-    let nthr = ctx.n(320, 1200);
+    let nthr = ctx.n(320, 6000);
     ctx.family("threads", nthr, |ctx, rng, i| {
         // combinations that touch the inherited streams through Merge, and a few others
         let merges: [[usize; 3]; 8] = [[0, 0, 4], [0, 4, 0], [1, 0, 4], [0, 4, 1], [2, 0, 4], [0, 4, 3], [0, 1, 4], [0, 4, 2]];
